@@ -460,6 +460,21 @@ theorem step_owned (fs : Funs) {h h' : Heap} (o : Owned h) (op : Op) {r : Option
           exact o.alloc_nonvar (by simp [Obj.isVar])
         · cases hop
       · cases hop
+  | mutInv m f =>
+    simp only [step] at hr
+    cases hop : mutInv h m f with
+    | error err => simp [hop, Except.map] at hr
+    | ok h1 =>
+      simp only [hop, Except.map, Except.ok.injEq, Prod.mk.injEq] at hr
+      obtain ⟨_, rfl⟩ := hr
+      unfold mutInv at hop
+      split at hop
+      · rename_i i vs d hm
+        obtain ⟨_, hgi⟩ := getModel_ok hm
+        simp only [Except.ok.injEq] at hop
+        subst hop
+        exact o.set_nonvar hgi (by simp [Obj.isVar]) (by simp [Obj.isVar])
+      · cases hop
 
 /-- a freshly built model is owned -/
 theorem newModel_owned {h : Heap} (o : Owned h) (d : InvData) : Owned (newModel h d).2 := by
